@@ -10,7 +10,7 @@ import client_drv as C
 from vcommon import (Report, model_check, model_check_expect_violation, validate_traces, seed, MachineryError,
                      open_findings, SPEC)
 
-OUTCOMES = ["own", "ownExc", "staleOwn", "foreign", "nothing", "short", "garbage", "oserror", "close"]
+OUTCOMES = ["own", "ownExc", "staleOwn", "foreign", "nothing", "late", "short", "garbage", "oserror", "close"]
 C08_CLAUSES = {"OwnOnly", "NoInvention", "RequestFrame"}
 C13_CLAUSES = {"SendBound", "NoRaise", "Honoured"}
 
@@ -120,6 +120,8 @@ def run(prop, tier):
             if sig.get("trigger") and not (set(sig["trigger"]) & set(x["script"])):
                 continue
             if sig.get("needs_pending_input") and not x.get("pending_at_start", 0):
+                continue
+            if sig.get("history_trigger") and not (set(sig["history_trigger"]) & {o for h in t.get("history", []) for o in h}):
                 continue
             if "mismatch_within" in sig:
                 mm = set(v.get("detail", {}).get("mismatch", []) or [])
